@@ -11,10 +11,10 @@ import sys
 
 VERIF = os.path.dirname(os.path.dirname(os.path.abspath(__file__)))
 RELATED = {
-    "C01": ["C02", "C08"], "C02": ["C01", "C15"], "C03": ["C04", "C05", "C18"], "C04": ["C03", "C05"],
-    "C05": ["C18", "C03", "C04"], "C06": ["C03", "C14"], "C07": [], "C08": ["C01"], "C09": [], "C10": ["C16"],
-    "C11": [], "C12": [], "C13": [], "C14": [], "C15": ["C02"], "C16": ["C10"], "C17": [], "C18": ["C05", "C03"],
-    "C19": [], "C20": [],
+    "C01": ["C02", "C08"], "C02": ["C01", "C15"], "C03": ["C04", "C05", "C18", "C10", "C11"], "C04": ["C03", "C05"],
+    "C05": ["C18", "C03", "C04"], "C06": ["C03", "C14"], "C07": ["C01", "C02"], "C08": ["C01"], "C09": [], "C10": ["C16", "C09"],
+    "C11": ["C10"], "C12": [], "C13": [], "C14": ["C06"], "C15": ["C02"], "C16": ["C10"], "C17": ["C16"], "C18": ["C05", "C03"],
+    "C19": [], "C20": ["C08"],
 }
 
 
